@@ -338,7 +338,17 @@ class Folder:
         except NotConst:
             return default
 
-    def eval(self, e: ast.expr, scope: Scope) -> Any:  # noqa: PLR0911, PLR0912
+    def eval(self, e: ast.expr, scope: Scope) -> Any:
+        try:
+            return self._eval(e, scope)
+        except NotConst:
+            raise
+        except RecursionError:
+            raise
+        except Exception as err:  # noqa: BLE001 - anything else means "not a constant"
+            raise NotConst(f"{type(err).__name__}: {err}") from err
+
+    def _eval(self, e: ast.expr, scope: Scope) -> Any:  # noqa: PLR0911, PLR0912
         if isinstance(e, ast.Constant):
             return e.value
         if isinstance(e, ast.Name):
